@@ -74,3 +74,8 @@ package loadfile
 //@   requires forall i int :: 0 <= i && i < len(fileCaches) ==> fileCaches[i] == nil || wfcache(fileCaches[i])
 //@   ensures [cache-or-error] result1 == nil ==> wfcache(result)
 //@   ensures [error-has-no-cache] result1 != nil ==> result == nil
+// Two spellings of one directory (a trailing separator, ./ in front) are the same root: the property asks
+// that such caches merge. The code compares the spellings, so this clause fails (known finding).
+//@   ensures [caches-whose-roots-name-the-same-directory-merge] len(fileCaches) == 2 && fileCaches[0] != nil && fileCaches[1] != nil && \
+//@        fp_clean(fileCaches[0].(*fileCache).rootDir) == fp_clean(fileCaches[1].(*fileCache).rootDir) && \
+//@        fileCaches[0].(*fileCache).rootDir != "" ==> result1 == nil
